@@ -82,7 +82,7 @@ def _case(draw, tier):
         head = {"cls": "Pair", "args": args}
     head["positional"] = draw(st.booleans())
     c["head"] = head
-    c["infer_style"] = draw(st.sampled_from(["infer_entity", "infer_direct"]))
+    c["infer_style"] = draw(st.sampled_from(["infer_entity", "infer_direct", "an_in_rule_mode"]))
     c["quant"] = "infer"
     return c
 
@@ -119,37 +119,56 @@ def check(case) -> Outcome:
         classes.append("expression_arg")
     if unconstrained:
         feats.append("head_var_not_in_body")
+    def _judge(res, built, earlier, attempt):
+        label = f"evaluation {attempt}: "
+        got = Counter()
+        for o in res:
+            if isinstance(o, SymbolicExpression) or type(o) is not cls:
+                return fail("not_an_instance", label + f"result {o!r} of type {type(o).__name__} is not a real {cls.__name__}",
+                            nontrivial=nontrivial, classes=classes, features=feats)
+            got[ident(tuple(getattr(o, k) for k, _ in head["args"]))] += 1
+        if len({id(o) for o in res}) != len(res):
+            return fail("instance_returned_twice", label + f"the same inferred object occurs twice among {res}",
+                        nontrivial=nontrivial, classes=classes, features=feats)
+        if any(o is x for o in res for x in objs):
+            return fail("existing_object_returned", label + "a dataset object was returned as an inferred instance",
+                        nontrivial=nontrivial, classes=classes, features=feats)
+        if any(o is x for o in res for x in earlier):
+            return fail("instance_reused_across_evaluations", label + "an instance built by the previous evaluation was "
+                        "returned again instead of a new one", nontrivial=nontrivial, classes=classes, features=feats)
+        if got != expected:
+            missing, extra = expected - got, got - expected
+            kind = "missing_instances" if missing and not extra else ("extra_instances" if extra and not missing else
+                                                                      "wrong_fields")
+            if attempt > 1:
+                kind = "reevaluation_" + kind
+            return fail(kind, label + f"head {head['cls']}({', '.join(k + '=' + A.r_term(t) for k, t in head['args'])}): "
+                              f"expected {len(sat)} instance(s) with fields {sorted(map(repr, expected.elements()))}, "
+                              f"got {res}", nontrivial=nontrivial, classes=classes, features=feats)
+        if built != len(sat):
+            return fail("constructor_calls", label + f"{built} constructor call(s) for {len(sat)} satisfying assignment(s)",
+                        nontrivial=nontrivial, classes=classes, features=feats)
+        return None
+
     V, conts = declare_vars(case, objs)
-    before = CONSTRUCTED[head["cls"]]
     try:
         q = build_infer(V, head, case["cond"], case["infer_style"], case.get("split_top"))
-        res = list(q.evaluate())
     except Exception as e:
-        return fail("exception", f"{type(e).__name__}: {e}; expected {len(sat)} instance(s)", nontrivial=nontrivial,
-                    classes=classes, features=feats)
-    built = CONSTRUCTED[head["cls"]] - before
-    got = Counter()
-    for o in res:
-        if isinstance(o, SymbolicExpression) or type(o) is not cls:
-            return fail("not_an_instance", f"result {o!r} of type {type(o).__name__} is not a real {cls.__name__}",
+        return fail("exception", f"building: {type(e).__name__}: {e}", nontrivial=nontrivial, classes=classes, features=feats)
+    earlier = []
+    # the same rule object is evaluated twice: EVERY evaluation constructs one new instance per satisfying assignment
+    for attempt in (1, 2):
+        before = CONSTRUCTED[head["cls"]]
+        try:
+            res = list(q.evaluate())
+        except Exception as e:
+            return fail("exception", f"evaluation {attempt}: {type(e).__name__}: {e}; expected {len(sat)} instance(s)",
                         nontrivial=nontrivial, classes=classes, features=feats)
-        got[ident(tuple(getattr(o, k) for k, _ in head["args"]))] += 1
-    if len({id(o) for o in res}) != len(res):
-        return fail("instance_returned_twice", f"the same inferred object occurs twice among {res}", nontrivial=nontrivial,
-                    classes=classes, features=feats)
-    if any(o is x for o in res for x in objs):
-        return fail("existing_object_returned", "a dataset object was returned as an inferred instance",
-                    nontrivial=nontrivial, classes=classes, features=feats)
-    if got != expected:
-        missing, extra = expected - got, got - expected
-        kind = "missing_instances" if missing and not extra else ("extra_instances" if extra and not missing else
-                                                                  "wrong_fields")
-        return fail(kind, f"head {head['cls']}({', '.join(k + '=' + A.r_term(t) for k, t in head['args'])}): expected "
-                          f"{len(sat)} instance(s) with fields {sorted(map(repr, expected.elements()))}, got {res}",
-                    nontrivial=nontrivial, classes=classes, features=feats)
-    if built != len(sat):
-        return fail("constructor_calls", f"{built} constructor call(s) for {len(sat)} satisfying assignment(s)",
-                    nontrivial=nontrivial, classes=classes, features=feats)
+        built = CONSTRUCTED[head["cls"]] - before
+        bad = _judge(res, built, earlier, attempt)
+        if bad is not None:
+            return bad
+        earlier.extend(res)
     return Outcome(True, nontrivial=nontrivial, classes=classes, features=feats)
 
 
